@@ -70,8 +70,21 @@ def main(argv=None):
         print(f"ENGINE-ERROR property={prop} building the plan failed: {e}")
         return 3
     units = plan.units
-    results = run_units(units, tier, seed)
+    results = run_units(units, tier, seed, digest=plan.digest + "|" + runtime_fingerprint())
     return finish(prop, tier, seed, plan, units, results, t0)
+
+
+def runtime_fingerprint():
+    """interpreter, solver and dependency versions: part of the cache key of instance units"""
+    import platform
+    bits = [platform.python_version()]
+    for m in ("z3", "pynmeagps", "pyrtcm"):
+        try:
+            mod = __import__(m)
+            bits.append(f"{m}={getattr(mod, '__version__', None) or getattr(mod, 'get_version_string', lambda: '?')()}")
+        except Exception:  # noqa
+            bits.append(f"{m}=?")
+    return ";".join(bits)
 
 
 def finish(prop, tier, seed, plan, units, results, t0):
@@ -186,10 +199,13 @@ def finish(prop, tier, seed, plan, units, results, t0):
     if violations:
         os.makedirs(rdir, exist_ok=True)
         seen = set()
+        MAX_REPLAYS = 24  # further violations of the same run are counted in the evidence, not replayed one by one
         for o in violations:
             if o.name in seen:
                 continue
             seen.add(o.name)
+            if len(seen) > MAX_REPLAYS and any("no-failing-input-found" not in v for v in vio_lines):
+                continue
             info = rp.replay_obligation(prop, o, plan)
             if getattr(o, "unconfirmed", False) and not info.get("reproduced"):
                 # refuted only by the second back end (no model) and not confirmed on the real code: undecided
@@ -261,6 +277,7 @@ def finish(prop, tier, seed, plan, units, results, t0):
             "trusted_base": trusted,
             "by_backend": by_backend,
             "cvc5_crosscheck": crosscheck,
+            "unit_results_reused_from_cache": sum(1 for r in results if r.info.get("cache_hit")),
             "solver_s": round(solver_s, 2),
             "functions_under_contract": sorted(functions),
             "callees": sorted({f"{a} -> {b} ({c})" for a, b, c in callees})[:400],
